@@ -33,6 +33,15 @@ type Conn struct {
 	consumed int
 	fed      int
 	curErr   error // what the harness last fed as the read error (nil = none)
+	rArmed   bool  // read half of the deadline armed (SetDeadline arms both halves)
+	wArmed   bool  // write half of the deadline armed
+}
+
+// Halves reports which halves of the conn's deadline are currently armed.
+func (c *Conn) Halves() (read, write bool) {
+	c.mu.Lock()
+	defer c.mu.Unlock()
+	return c.rArmed, c.wArmed
 }
 
 func NewConn() *Conn { return &Conn{ScriptConn: vlib.NewScriptConn()} }
@@ -67,6 +76,15 @@ func (c *Conn) Read(b []byte) (int, error) {
 }
 
 func (c *Conn) Write(b []byte) (int, error) {
+	// virtual time: once it is beyond every deadline, a write half that is still armed fails
+	// the write (the ScriptConn itself does not enforce write deadlines)
+	c.mu.Lock()
+	stale := c.wArmed && c.ScriptConn.FireDeadlines
+	c.mu.Unlock()
+	if stale {
+		c.add(Ev{Kind: "writeerr", Err: "timeout"})
+		return 0, vlib.TimeoutError{}
+	}
 	n, err := c.ScriptConn.Write(b)
 	if err != nil {
 		c.add(Ev{Kind: "writeerr", N: n, Err: ErrClass(err)})
@@ -82,16 +100,25 @@ func (c *Conn) Close() error {
 }
 
 func (c *Conn) SetDeadline(t time.Time) error {
+	c.mu.Lock()
+	c.rArmed, c.wArmed = !t.IsZero(), !t.IsZero()
+	c.mu.Unlock()
 	c.add(Ev{Kind: "deadline", Armed: !t.IsZero()})
 	return c.ScriptConn.SetDeadline(t)
 }
 
 func (c *Conn) SetReadDeadline(t time.Time) error {
+	c.mu.Lock()
+	c.rArmed = !t.IsZero()
+	c.mu.Unlock()
 	c.add(Ev{Kind: "rdeadline", Armed: !t.IsZero()})
 	return c.ScriptConn.SetReadDeadline(t)
 }
 
 func (c *Conn) SetWriteDeadline(t time.Time) error {
+	c.mu.Lock()
+	c.wArmed = !t.IsZero()
+	c.mu.Unlock()
 	c.add(Ev{Kind: "wdeadline", Armed: !t.IsZero()})
 	return c.ScriptConn.SetWriteDeadline(t)
 }
